@@ -175,6 +175,8 @@ def implicit(assemble=None, fmt=None):
     imp = P.comp('imp', 'g', {'v': In(c1['y'], shape=(2,))}, {'s': dict(shape=(2,))}, terms, 'dense', implicit=True)
     c2 = P.comp('c2', 'g', {'u': In(imp['s'], shape=(2,), via='connect_local')}, {'z': dict(shape=(1,))}, {'z': q2s('u')}, 'sparse')
     P.group_opts['g'] = dict(linear_solver=_direct(assemble))
+    if fmt:
+        P.group_opts['g']['assembled_jac_type'] = fmt
     P.ofs, P.wrts = [c2['z'].abs, imp['s'].abs], [a.abs]
     P.states = [imp['s']]
     P.features = ['implicit component', 'DirectSolver', f'assemble_jac={assemble}']
@@ -200,7 +202,8 @@ LIBRARY = {
     'idx_flat': idx_flat, 'idx_nonflat': idx_nonflat, 'auto_units': auto_units, 'promote_chain': promote_chain,
     'matfree': matfree, 'temp_offset': temp_offset, 'branches': branches, 'ratio': ratio,
 }
-IMPLICIT = {'implicit': implicit, 'implicit_asm': lambda: implicit(True)}
+IMPLICIT = {'implicit': implicit, 'implicit_asm': lambda: implicit(True), 'implicit_dense': lambda: implicit(True, 'dense')}
+# (DirectSolver refuses CSR assembled jacobians by design: 'Direct solver not implemented for matrix type csr'; CSR is exercised in C11)
 
 
 # ------------------------------------------------------------------------------------------------
